@@ -37,6 +37,13 @@ struct Truth {
     msg: String,
     line: String,
     src: String,
+    /// false after set_error: the help fixes the message only, line and source are unconstrained
+    positioned: bool,
+}
+
+thread_local! {
+    /// set by run_case right before the run starts (the observer is installed earlier)
+    static LAYOUT: std::cell::RefCell<Option<(String, usize, String)>> = std::cell::RefCell::new(None);
 }
 
 struct ErrObs {
@@ -46,6 +53,9 @@ struct ErrObs {
     exit_mode: bool,
     fatal: Option<Truth>,
     text_mode: bool,
+    /// file modes: (path of the main file, number of instructions spliced in by the include directive at its
+    /// first line, path suffix of the included file) - positions are derived from the rendering, not read back
+    layout: Option<(String, usize, String)>,
     nested_plan: Vec<(u32, u32)>,
     script_d0_count: u32,
     in_script_cmd: Option<u32>,
@@ -64,6 +74,7 @@ const PROBE_ERR: &str = "std::error::GetLastError";
 const PROBE_LINE: &str = "std::error::GetLastErrorLine";
 const PROBE_SRC: &str = "std::error::GetLastErrorSource";
 const EXIT_ON_ERROR: &str = "std::error::SetExitOnError";
+const SET_ERROR: &str = "std::error::SetError";
 
 impl Observer for ErrObs {
     fn on_start(&mut self, core: &mut Core, info: &StartInfo, vars: &mut HashMap<String, String>, _s: &mut HashMap<String, StateValue>, _e: &mut Env) -> Option<CommandResult> {
@@ -93,6 +104,18 @@ impl Observer for ErrObs {
             }
             if self.text_mode && info.src_line != Some(info.line + 1) {
                 core.violate("instruction-position", format!("instruction index {} carries source line {:?}", info.line, info.src_line));
+            }
+            if self.layout.is_none() {
+                self.layout = LAYOUT.with(|l| l.borrow().clone());
+            }
+            if let Some((main_path, spliced, inc_suffix)) = &self.layout {
+                // index 0 is the directive (if any), 1..=spliced come from the included file, the rest from main
+                let (want_line, in_included) = if *spliced > 0 && info.line >= 1 && info.line <= *spliced { (info.line, true) } else if *spliced > 0 { (info.line - *spliced + 1, false) } else { (info.line + 1, false) };
+                let src = info.src.clone().unwrap_or_default();
+                let src_ok = if in_included { src.ends_with(inc_suffix.as_str()) } else { src == *main_path };
+                if info.src_line != Some(want_line) || !src_ok {
+                    core.violate("instruction-position", format!("instruction index {} carries line {:?} of {:?}; by the files written it is line {} of {}", info.line, info.src_line, info.src, want_line, if in_included { inc_suffix.as_str() } else { main_path.as_str() }));
+                }
             }
             if gen::script_command_names().contains(&info.name) {
                 self.in_script_cmd = Some(self.script_d0_count);
@@ -129,13 +152,20 @@ impl Observer for ErrObs {
                 self.exit_mode = new;
             }
         }
+        // set_error replaces the last error's message (it does not go through on_error and must not touch the mode)
+        if info.name == SET_ERROR {
+            if let (CommandResult::Continue(_), Some(m)) = (&result, info.args.first()) {
+                self.last = Some(Truth { msg: m.clone(), line: String::new(), src: String::new(), positioned: false });
+                core.probe("set-error-used");
+            }
+        }
         // probes
         if info.depth == 0 {
             if let (Some(t), CommandResult::Continue(out)) = (&self.last, &result) {
                 let want = match info.name.as_str() {
                     PROBE_ERR => Some(&t.msg),
-                    PROBE_LINE => Some(&t.line),
-                    PROBE_SRC => Some(&t.src),
+                    PROBE_LINE if t.positioned => Some(&t.line),
+                    PROBE_SRC if t.positioned => Some(&t.src),
                     _ => None,
                 };
                 if let Some(w) = want {
@@ -156,7 +186,7 @@ impl Observer for ErrObs {
         }
         if info.depth == 0 {
             if let CommandResult::Error(msg) = result {
-                let t = Truth { msg: msg.clone(), line: info.src_line.unwrap_or(0).to_string(), src: info.src.clone().unwrap_or_default() };
+                let t = Truth { msg: msg.clone(), line: info.src_line.unwrap_or(0).to_string(), src: info.src.clone().unwrap_or_default(), positioned: true };
                 self.errors_seen += 1;
                 self.shared.borrow_mut().errors_seen = self.errors_seen;
                 if msg.contains("${") || msg.contains('"') || msg.contains('#') {
@@ -188,7 +218,8 @@ fn raw_line(rng: &mut Rng, n_arrays: usize) -> String {
         let m = *rng.pick(&MESSAGES);
         if m.contains(' ') || m.contains('#') || m.contains('"') { format!("\"{}\"", m) } else { m.to_string() }
     };
-    match rng.below(16) {
+    match rng.below(17) {
+        16 => format!("set_error {}", msg),
         0 | 1 => "pe = get_last_error".to_string(),
         2 | 3 => "pl = get_last_error_line".to_string(),
         4 | 5 => "ps = get_last_error_source".to_string(),
@@ -265,6 +296,7 @@ fn gen_case(rng: &mut Rng) -> Case {
 // ------------------------------------------------------------------ execution
 
 fn run_case(case: &Case, env: &WorkerEnv) -> Verdict {
+    LAYOUT.with(|l| *l.borrow_mut() = None);
     let p = &case.program;
     let text = gen::render(p);
     let shared = std::rc::Rc::new(std::cell::RefCell::new(Shared::default()));
@@ -275,6 +307,7 @@ fn run_case(case: &Case, env: &WorkerEnv) -> Verdict {
         exit_mode: false,
         fatal: None,
         text_mode: case.mode == Mode::Text,
+        layout: None,
         nested_plan: case.nested.clone(),
         script_d0_count: 0,
         in_script_cmd: None,
@@ -295,6 +328,7 @@ fn run_case(case: &Case, env: &WorkerEnv) -> Verdict {
             let _ = std::fs::remove_dir_all(&dir);
             let _ = std::fs::create_dir_all(dir.join("lib"));
             let main_path = dir.join("main.ds");
+            let mut spliced = 0usize;
             if case.mode == Mode::FileWithInclude && !p.fns.is_empty() {
                 // the function definitions (everything up to the first line of main) go to an included file
                 let mut q = p.clone();
@@ -306,11 +340,13 @@ fn run_case(case: &Case, env: &WorkerEnv) -> Verdict {
                 q2.fns = vec![];
                 let main_text = gen::render(&q2);
                 // arrays are rendered first by `render`; keep them before the include so that indexes stay simple
+                spliced = fns_text.lines().count();
                 let _ = std::fs::write(dir.join("lib").join("fns.ds"), fns_text);
                 let _ = std::fs::write(&main_path, format!("!include_files lib/fns.ds\n{}", main_text));
             } else {
                 let _ = std::fs::write(&main_path, &text);
             }
+            LAYOUT.with(|l| *l.borrow_mut() = Some((main_path.to_string_lossy().to_string(), spliced, "lib/fns.ds".to_string())));
             let r = runner::run_script_file(&main_path.to_string_lossy(), context, Some(renv));
             let _ = std::fs::remove_dir_all(&dir);
             r
@@ -358,7 +394,7 @@ impl Prop for C10 {
             assumptions: &["flow-control and condition commands are never fault points", "the (line, source) of an instruction is read from the parsed instruction list (its correctness is C14's); in text mode it is additionally required to equal index + 1"],
             needs_jail: true,
             needs_duck: false,
-            expected_probes: &["probe-after-error", "two-errors-then-probe", "exit-on-error-toggled", "fatal-error", "error-inside-script-implemented-command", "error-in-included-file", "message-with-special-characters"],
+            expected_probes: &["probe-after-error", "two-errors-then-probe", "exit-on-error-toggled", "fatal-error", "error-inside-script-implemented-command", "error-in-included-file", "message-with-special-characters", "set-error-used"],
         }
     }
     fn runs(&self, tier: &str) -> u64 {
